@@ -224,11 +224,14 @@ Definition get_changes (keys : list Z) : list Z := map (Z.add 1) (flatnonzero (n
 Fixpoint zip_bounds (b : list Z) : list (Z * Z) :=
   match b with s :: ((e :: _) as r) => (s, e) :: zip_bounds r | _ => [] end.
 (* one chunk; [fast] = the keys are of a kind for which the first-equals-last shortcut is tried *)
-Definition groupby_chunk {A} (fast : bool) (keys : list Z) (data : list A) : list (Z * list A) :=
+Definition groupby_chunk_nonempty {A} (fast : bool) (keys : list Z) (data : list A) : list (Z * list A) :=
   if fast && m_gb_fast_test (nthZ keys 0) (nthZ keys (len keys - 1)) then [(nthZ keys 0, skipn 0 data)]
   else
     let changes := (0 :: get_changes keys) ++ [len data] in
     map (fun '(s, e) => (nthZ keys s, slice s e data)) (zip_bounds changes).
+(* `if len(keys) == 0: return grouped_stream(iter(()), column)` — a table without entries has no groups (a68b397) *)
+Definition groupby_chunk {A} (fast : bool) (keys : list Z) (data : list A) : list (Z * list A) :=
+  if len keys =? 0 then [] else groupby_chunk_nonempty fast keys data.
 (* join_groupbys: itertools.groupby over the chained (key, group) pairs, groups concatenated *)
 Fixpoint join_groups {A} (gs : list (Z * list A)) : list (Z * list A) :=
   match gs with
@@ -431,7 +434,7 @@ Definition red_mean_fixed (a b : gval) : gval :=
   | _, _ => GErr
   end.
 (* THE SWITCH for finding C11-mean-axis0-ragged-columns: pinned code = red_mean, after fix-2 = red_mean_fixed *)
-Definition red_mean_current := red_mean.
+Definition red_mean_current := red_mean_fixed.
 
 (* np.sum of the ragged values of one chromosome.  axis=None on a RunLengthRaggedArray gives the ROW sums (one per
    window); axis=0 gives the column sums and raises on a chromosome without windows (zero-size reduction). *)
